@@ -92,16 +92,19 @@ def run(ck):
             v2 = sym("val2", ty="int")
             nr = len(it.raises)
             nf = len(env.facts)
+            ns = len(it.stores)
             it.setattr(f, "value", v2, env, None, None)
             R.check_range_guard(ck, it, env.facts[nf:], it.raises[nr:], {"val2": (v2, 0, hi)}, f"UnsignedByteField.value setter (int) [{n}]")
+            R.check_refusal_atomic(ck, it, f"UnsignedByteField.value setter (int) [{n}]", s0=ns, r0=nr, rule="G-RANGE")
             R.check_pack_layout(ck, it, env, as_bcat(read_path(it, env, f, "as_bytes")), [F("val2", 8 * n)], "UnsignedByteField.value setter",
                                 f"after field.value = int: as_bytes == big-endian new value ({tag})", extra_widths={"val2": 8 * n}, rule="P-MUST")
             ck.verdict("P-MUST", "UnsignedByteField.value setter", f"after field.value = int: value view is the new value ({tag})",
                        [] if read_path(it, env, f, "value") == v2 else [show(read_path(it, env, f, "value"))[:60]], "identity", nontrivial=False)
             # octet setter: exactly the first n octets
             raw = sym("raw", ty="bytes")
-            nr = len(it.raises); nf = len(env.facts)
+            nr = len(it.raises); nf = len(env.facts); ns = len(it.stores)
             it.setattr(f, "value", as_bcat(raw), env, None, None)
+            R.check_refusal_atomic(ck, it, f"UnsignedByteField.value setter (octets) [{n}]", s0=ns, r0=nr, rule="G-RANGE")
             _sc = {}; simp = lambda t: D.simplify(D.simplify(t, env.facts, _sc), env.facts, _sc)
             ab = simp(read_path(it, env, f, "as_bytes"))
             R.check_slice_extent(ck, ab, "raw", Lin({}, 0), Lin({}, n), "UnsignedByteField.value setter", f"after field.value = octets: as_bytes == exactly the first {n} octets ({tag})", rule="P-MUST")
